@@ -25,6 +25,7 @@ RULE = (
     "non-trivial = the edit changed the value"
     ' Also (added while the seeded-change rounds of DESIGN section 9 ran): Also: edits that rebind chunk objects before an element edit, user-defined controller values (direct and through the label alias) on loaded MetaModules.'
 )
+RULE += " Rounds 12-14 of DESIGN section 9 added: MetaModule-focused cases in a process that has derived its own MetaModule class; the Sampler record grid with every field edited to every grid value; every ordered pair of envelope edits on an untouched instrument; one Sample object put into a second slot; mapping items edited in place."
 ASSUMPTIONS = [
     "declared couplings: exclusive options reset their partner; MultiCtl.value fans out to linked targets; an embedded controller edit may update "
     "the MetaModule's stored user-controller values; the user-controller count changes attachment/labels/stored values",
